@@ -10,6 +10,8 @@
 3. stores /verif/seeded/<PROP>-<n>/{patch.diff, demo.rs, meta.json}.
 """
 import json, os, re, shutil, subprocess, sys, time
+CHECK_ROOT = os.environ.get("VERIF_CHECK_ROOT", "/verif")
+REPO = os.environ.get("VERIF_REPO", "/repo")
 
 def sh(cmd, cwd=None, timeout=3600):
     p = subprocess.run(cmd, shell=True, cwd=cwd, stdout=subprocess.PIPE, stderr=subprocess.STDOUT, text=True, timeout=timeout)
@@ -20,7 +22,13 @@ def main():
     checks = [prop]
     if "--checks" in sys.argv:
         checks = sys.argv[sys.argv.index("--checks") + 1].split(",")
-    src = f"/tmp/seed/{prop}"
+    base = "/tmp/seed"
+    tag = ""
+    if "--src" in sys.argv:
+        base = sys.argv[sys.argv.index("--src") + 1]
+    if "--tag" in sys.argv:
+        tag = sys.argv[sys.argv.index("--tag") + 1] + "-"
+    src = f"{base}/{prop}"
     wt = f"{src}/wt"
     diff = f"{src}/out/change{n}.diff"
     demo = f"{src}/out/demo_{n}.rs"
@@ -47,24 +55,26 @@ def main():
         print("NOT KEPT (does not satisfy the requirements)")
         sys.exit(2)
     # run checks against /repo
-    rc, out = sh("git status --porcelain", cwd="/repo")
+    rc, out = sh("git status --porcelain", cwd=REPO)
     if out.strip():
-        print("/repo is dirty, refusing"); sys.exit(1)
-    rc, out = sh(f"git apply {diff}", cwd="/repo")
+        print(REPO + " is dirty, refusing"); sys.exit(1)
+    rc, out = sh(f"git apply {diff}", cwd=REPO)
     assert rc == 0, out
     results = {}
     try:
         for c in checks:
             t = time.time()
-            rc, out = sh(f"./check {c} quick --no-evidence", cwd="/verif")
+            rc, out = sh(f"./check {c} quick --no-evidence", cwd=CHECK_ROOT)
             lines = [l for l in out.splitlines() if l.startswith("VIOLATION") or l.strip().startswith(("clause", "what"))]
             results[c] = {"exit": rc, "seconds": round(time.time() - t, 1), "report": lines[:3]}
             print(c, "exit", rc, f"{time.time()-t:.1f}s", *lines[:3], sep="\n   ")
     finally:
-        sh("git checkout -- .", cwd="/repo")
+        sh("git checkout -- .", cwd=REPO)
+    meta["checks_run_from"] = CHECK_ROOT
+    meta["repo_used"] = REPO
     meta["checks_quick"] = results
     meta["caught"] = any(r["exit"] == 1 for r in results.values())
-    d = f"/verif/seeded/{prop}-{n}"
+    d = f"/verif/seeded/{prop}-{tag}{n}"
     os.makedirs(d, exist_ok=True)
     shutil.copy(diff, f"{d}/patch.diff")
     shutil.copy(demo, f"{d}/demo.rs")
